@@ -102,4 +102,8 @@ func (rb *RingBuffer[T]) Len() (l uint) {
 func (rb *RingBuffer[T]) Clear() {
 	rb.full = false
 	rb.cur = 0
+
+	// Zero the storage so that Current returns the zero value, as it does for
+	// a new buffer, and the old elements can be garbage-collected.
+	clear(rb.buf)
 }
